@@ -698,6 +698,10 @@ def cases(tier):
         if prim and poly and (not quick or not dep):
             # the same claim with the builtin min()/max() forking one path per ordering
             cs.append(encloses_case(name, mk, info, 1 if dep else 0, mode="fork", max_paths=400))
+    if quick:  # the 3-D primitive with two parameter rows of different radii (not in the quick catalogue)
+        for name, mk, info in _catalog("thorough"):
+            if name == "Sphere[t]":
+                cs.append(encloses_case(name, mk, info, 2, mode="ite"))
     cs.append(two_queries_case())
     cs.append(fixed_angle_case("Rotate45(unit square)", "lead"))
     for j in ((1,) if quick else (1, 2, 3)):
